@@ -1,6 +1,7 @@
 from pyvc.verify import Unit
 from contracts import dr as D
 from contracts import headervd as H
+from contracts import acct as A
 
 
 def lens(tier):
@@ -26,6 +27,8 @@ def units(tier):
     for nf in ((0, 1, 2) if tier == 'quick' else (0, 1, 2, 3)):
         for root in (False, True):
             us.append(Unit(D.AddChild, {'nfiles': nf, 'is_root': root}))
+    for rem in (False, True):
+        us.append(Unit(A.AddToPtrSizeAllPVDs, {'remove': rem, 'npvd': 2}))
     us += [Unit(H.VDRecord, {'vd_type': 1}), Unit(H.VDRecord, {'vd_type': 2}), Unit(H.VDSTRecord), Unit(H.BRRecord)]
     return us
 
